@@ -420,7 +420,7 @@ def run_case(case):
 
 def cases(seed, tier):
     sch = Sched(seed)
-    n, ex_sm, ex_s = (16, 400, 40) if tier == "quick" else (64, 20000, 1500)
+    n, ex_sm, ex_s = (16, 400, 40) if tier == "quick" else (480, 1500, 120)
     out = []
     for k in range(n):
         out.append(dict(mode="sm", seed=sch.np_seed(f"c17.sm.{k}"), examples=ex_sm, steps=30))
